@@ -16,6 +16,13 @@ Proof. unfold fails_any, sites4; simpl. now rewrite orb_false_r, !orb_assoc. Qed
 Lemma fails3 p : fails_any p sites3 = p Measure || p Predicted || p Innovation.
 Proof. unfold fails_any, sites3; simpl. now rewrite orb_false_r, !orb_assoc. Qed.
 
+Lemma correct_wrapper_not_skipping {B S} (step : B -> B -> S -> result B S) pred out st :
+  correct_wrapper false step pred out st = step pred out st.
+Proof. reflexivity. Qed.
+Lemma correct_wrapper_skipping {B S} (step : B -> B -> S -> result B S) pred out st :
+  correct_wrapper true step pred out st = mkRes pred st [].
+Proof. reflexivity. Qed.
+
 Section Proofs.
 Variables G St Y X YP NU RC PY PM PXY LK RNG : Type.
 Notation mmodel := (mmodel Y X YP NU RC).
@@ -30,7 +37,8 @@ Notation kf_step_ := (kf_step kf_px kf_upd).
 (* any consulted call failing: whole output object = predicted object, members untouched *)
 Lemma kf_identity (p : pattern) (mm : mmodel) pred out st :
   fails_any p sites4 = true ->
-  r_out (kf_step_ (inject p mm) pred out st) = pred /\ r_st (kf_step_ (inject p mm) pred out st) = st.
+  r_out (kf_step_ (inject p mm) pred out st) = pred /\
+  r_st (kf_step_ (inject p mm) pred out st) = mkKfSt None (kf_py st).
 Proof.
   rewrite fails4. unfold kf_step, inject; simpl.
   destruct (p Measure); simpl; [auto|].
@@ -46,7 +54,7 @@ Qed.
 Lemma kf_identity_model (mm : mmodel) pred out st :
   (mm_measure mm = None \/ (forall x, mm_predicted mm x = None) \/
    (forall a b, mm_innovation mm a b = None) \/ fst (mm_noisecov mm) = false) ->
-  r_out (kf_step_ mm pred out st) = pred /\ r_st (kf_step_ mm pred out st) = st.
+  r_out (kf_step_ mm pred out st) = pred /\ r_st (kf_step_ mm pred out st) = mkKfSt None (kf_py st).
 Proof.
   unfold kf_step. intros Hf.
   destruct (mm_measure mm) eqn:E1; simpl; [|auto].
@@ -79,28 +87,25 @@ Proof.
   destruct (kf_upd _ _ _ _); reflexivity.
 Qed.
 
-(* getLikelihood after a failed correction returns what it returned before *)
-Lemma kf_lik_unchanged_by_failure (p : pattern) (mm : mmodel) pred out st :
+(* getLikelihood after a correction that could not use the measurement reports
+   failure, whatever the members held before (in particular after earlier successes) *)
+Lemma kf_lik_after_failure_reports_failure (p : pattern) (mm : mmodel) pred out st :
   fails_any p sites4 = true ->
-  kf_get_lik kf_lik (r_st (kf_step_ (inject p mm) pred out st)) = kf_get_lik kf_lik st.
+  kf_get_lik kf_lik (r_st (kf_step_ (inject p mm) pred out st)) = None.
 Proof. intros Hf. now destruct (kf_identity p mm pred out st Hf) as [_ ->]. Qed.
 
-(* ... so on a fresh object it reports failure ... *)
-Lemma kf_lik_fresh_reports_failure (p : pattern) (mm : mmodel) pred out py :
-  fails_any p sites4 = true ->
-  kf_get_lik kf_lik (r_st (kf_step_ (inject p mm) pred out (mkKfSt None py))) = None.
-Proof. intros Hf. now rewrite kf_lik_unchanged_by_failure. Qed.
+Lemma kf_lik_after_failure_reports_failure_model (mm : mmodel) pred out st :
+  (mm_measure mm = None \/ (forall x, mm_predicted mm x = None) \/
+   (forall a b, mm_innovation mm a b = None) \/ fst (mm_noisecov mm) = false) ->
+  kf_get_lik kf_lik (r_st (kf_step_ mm pred out st)) = None.
+Proof. intros Hf. now destruct (kf_identity_model mm pred out st Hf) as [_ ->]. Qed.
 
-(* ... and after an earlier successful correction it reports that one's value *)
-Lemma kf_lik_stale (p : pattern) (y : Y) (h : X -> YP) (inn : YP -> Y -> NU) (R : RC) pred0 out0 st0 pred1 out1 (mm : mmodel) :
-  fails_any p sites4 = true ->
-  let st1 := r_st (kf_step_ (inject no_fault (total_mm y h inn R)) pred0 out0 st0) in
-  kf_get_lik kf_lik (r_st (kf_step_ (inject p mm) pred1 out1 st1)) =
-  Some (kf_lik (inn (h (kf_px pred0)) y) (snd (kf_upd pred0 (inn (h (kf_px pred0)) y) R out0))).
-Proof.
-  intros Hf st1. rewrite kf_lik_unchanged_by_failure by assumption.
-  unfold st1. now rewrite kf_no_fault.
-Qed.
+(* and after a correction that used it, it is this correction's likelihood *)
+Lemma kf_lik_after_success (y : Y) (h : X -> YP) (inn : YP -> Y -> NU) (R : RC) pred out st :
+  let nu := inn (h (kf_px pred)) y in
+  kf_get_lik kf_lik (r_st (kf_step_ (inject no_fault (total_mm y h inn R)) pred out st)) =
+  Some (kf_lik nu (snd (kf_upd pred nu R out))).
+Proof. intros nu. now rewrite kf_no_fault. Qed.
 End KF.
 
 (* --------------------------------------------------------------- UKF *)
@@ -119,7 +124,7 @@ Notation ukf_step_ := (ukf_step sigma_of ut_moments pm_default pxy_empty pm_add_
 Lemma ukf_identity (additive : bool) (p : pattern) (mm : mmodel) pred out st :
   fails_any p sites3 = true ->
   r_out (ukf_step_ additive (inject p mm) pred out st) = pred /\
-  u_innov (r_st (ukf_step_ additive (inject p mm) pred out st)) = u_innov st.
+  u_innov (r_st (ukf_step_ additive (inject p mm) pred out st)) = None.
 Proof.
   rewrite fails3.
   unfold ukf_step, ut_additive, ut_generic, ut_base, inject; simpl.
@@ -155,14 +160,13 @@ Proof.
   destruct (p Innovation); reflexivity.
 Qed.
 
-(* additive: getNoiseCovarianceMatrix is still called after predictedMeasure failed *)
+(* additive: the prefix up to the first failing call here too (getNoiseCovarianceMatrix
+   is not called after a failed predictedMeasure; its own flag is ignored) *)
 Lemma ukf_additive_log (p : pattern) (y : Y) (h : X -> YP) (inn : YP -> Y -> NU) (R : RC) pred out st :
   r_log (ukf_step_ true (inject p (total_mm y h inn R)) pred out st) =
-  if p Measure then [Measure]
-  else if p Predicted then [Measure; Predicted; NoiseCov]
-  else [Measure; Predicted; NoiseCov; Innovation].
+  upto_first_failure (mask NoiseCov p) [Measure; Predicted; NoiseCov; Innovation].
 Proof.
-  unfold ukf_step, ut_additive, ut_base, inject, total_mm; simpl.
+  unfold ukf_step, ut_additive, ut_base, inject, total_mm, mask; simpl.
   destruct (p Measure); simpl; [reflexivity|].
   destruct (p Predicted); simpl; [reflexivity|].
   destruct (ut_moments _ _); simpl.
@@ -183,23 +187,22 @@ Proof.
   destruct additive; simpl; destruct (ut_moments _ _); reflexivity.
 Qed.
 
-(* what a failed correction leaves for getLikelihood: the old innovations_
-   next to a predicted_meas_ that belongs to the failed call *)
+(* what a failed predictedMeasure leaves behind: no innovations, the
+   default-constructed predicted_meas_ of the failed transform *)
 Lemma ukf_state_after_failure (additive : bool) (p : pattern) (y : Y) (h : X -> YP) (inn : YP -> Y -> NU) (R : RC) pred out st :
   p Measure = false -> p Predicted = true ->
-  r_st (ukf_step_ additive (inject p (total_mm y h inn R)) pred out st) =
-  mkUkfSt (u_innov st) (if additive then pm_add_noise pm_default R else pm_default).
+  r_st (ukf_step_ additive (inject p (total_mm y h inn R)) pred out st) = mkUkfSt None pm_default.
 Proof.
   intros H1 H2.
   unfold ukf_step, ut_additive, ut_generic, ut_base, inject, total_mm; simpl.
   rewrite H1, H2; simpl. destruct additive; simpl; destruct (p NoiseCov); reflexivity.
 Qed.
 
-Lemma ukf_lik_fresh_reports_failure (additive : bool) (p : pattern) (mm : mmodel) pred out pm :
+Lemma ukf_lik_after_failure_reports_failure (additive : bool) (p : pattern) (mm : mmodel) pred out st :
   fails_any p sites3 = true ->
-  ukf_get_lik ukf_lik (r_st (ukf_step_ additive (inject p mm) pred out (mkUkfSt None pm))) = None.
+  ukf_get_lik ukf_lik (r_st (ukf_step_ additive (inject p mm) pred out st)) = None.
 Proof.
-  intros Hf. destruct (ukf_identity additive p mm pred out (mkUkfSt None pm) Hf) as [_ E].
+  intros Hf. destruct (ukf_identity additive p mm pred out st Hf) as [_ E].
   unfold ukf_get_lik. now rewrite E.
 Qed.
 End UKF.
@@ -215,7 +218,7 @@ Notation sukf_step_ := (sukf_step sigma_of sukf_pred_mean sukf_upd).
 Lemma sukf_identity (sub_ok : bool) ncalls (p : pattern) (mm : mmodel) pred out st :
   fails_any p sites3 = true \/ sub_ok = false ->
   r_out (sukf_step_ sub_ok ncalls (inject p mm) pred out st) = pred /\
-  s_innov (r_st (sukf_step_ sub_ok ncalls (inject p mm) pred out st)) = s_innov st.
+  s_innov (r_st (sukf_step_ sub_ok ncalls (inject p mm) pred out st)) = None.
 Proof.
   rewrite fails3. unfold sukf_step, inject; simpl. intros Hf.
   destruct (p Measure); simpl; [auto|].
@@ -263,16 +266,16 @@ Qed.
 Lemma sukf_state_after_innovation_failure ncalls (p : pattern) (y : Y) (h : X -> YP) (inn : YP -> Y -> NU) (R : RC) pred out st :
   p Measure = false -> p Predicted = false -> p Innovation = true ->
   r_st (sukf_step_ true ncalls (inject p (total_mm y h inn R)) pred out st) =
-  mkSukfSt (s_innov st) (Some (h (sigma_of pred))).
+  mkSukfSt None (Some (h (sigma_of pred))).
 Proof.
   intros H1 H2 H3. unfold sukf_step, inject, total_mm; simpl. now rewrite H1, H2, H3.
 Qed.
 
-Lemma sukf_lik_fresh_reports_failure sub_ok ncalls lcalls (p : pattern) (mm mm' : mmodel) pred out sp :
+Lemma sukf_lik_after_failure_reports_failure sub_ok ncalls lcalls (p : pattern) (mm mm' : mmodel) pred out st :
   fails_any p sites3 = true \/ sub_ok = false ->
-  fst (sukf_get_lik sukf_lik lcalls mm' (r_st (sukf_step_ sub_ok ncalls (inject p mm) pred out (mkSukfSt None sp)))) = None.
+  sukf_get_lik sukf_lik lcalls mm' (r_st (sukf_step_ sub_ok ncalls (inject p mm) pred out st)) = (None, []).
 Proof.
-  intros Hf. destruct (sukf_identity sub_ok ncalls p mm pred out (mkSukfSt None sp) Hf) as [_ E].
+  intros Hf. destruct (sukf_identity sub_ok ncalls p mm pred out st Hf) as [_ E].
   unfold sukf_get_lik. now rewrite E.
 Qed.
 End SUKF.
